@@ -24,10 +24,10 @@
 namespace models {
 using namespace Pomerol;
 
-enum { ATOM = 0, DIMER = 1, KANAMORI = 2, CHAIN3 = 3, ATOM_FIELD = 4, DIMER_FIELD = 5, N_MODELS = 6 };
+enum { ATOM = 0, DIMER = 1, KANAMORI = 2, CHAIN3 = 3, ATOM_FIELD = 4, DIMER_FIELD = 5, ATOMS2 = 6, N_MODELS = 7 };  // ATOMS2: two sites NOT connected by hopping
 
 inline int nmodes(int model) { return model == ATOM || model == ATOM_FIELD ? 2 : model == CHAIN3 ? 6 : 4; }
-inline const char* model_name(int m) { static const char* n[] = {"atom", "dimer", "kanamori", "chain3", "atom+field", "dimer+field"}; return n[m % N_MODELS]; }
+inline const char* model_name(int m) { static const char* n[] = {"atom", "dimer", "kanamori", "chain3", "atom+field", "dimer+field", "two isolated atoms"}; return n[m % N_MODELS]; }
 
 struct Params { double U[3], eps[3], t[2], J, h; };
 
@@ -60,11 +60,11 @@ struct Stage0 {
                 LatticePresets::addCoulombS(&L, "A", p.U[0], p.eps[0]);
                 if (model == ATOM_FIELD) LatticePresets::addMagnetization(&L, "A", p.h);
                 break;
-            case DIMER: case DIMER_FIELD:
+            case DIMER: case DIMER_FIELD: case ATOMS2:
                 L.addSite(new Lattice::Site("A", 1, 2)); L.addSite(new Lattice::Site("B", 1, 2));
                 LatticePresets::addCoulombS(&L, "A", p.U[0], p.eps[0]);
                 LatticePresets::addCoulombS(&L, "B", p.U[1], p.eps[1]);
-                LatticePresets::addHopping(&L, "A", "B", p.t[0]);
+                if (model != ATOMS2) LatticePresets::addHopping(&L, "A", "B", p.t[0]);
                 if (model == DIMER_FIELD) LatticePresets::addMagnetization(&L, "A", p.h);
                 break;
             case KANAMORI:
